@@ -9,7 +9,8 @@
    string values that look like a typed value ("int:..", "float:..", "bool:true/false" in any
    case, "NoneType:") and a first parameter named "json". *)
 From Common Require Import Prelude.
-From C19 Require Import Model Lemmas Reader Session Json Pickle.
+From Coq Require Import Sorting.Sorted.
+From C19 Require Import Model Lemmas Reader Session Json Pickle Timed.
 Open Scope Z_scope.
 
 Theorem roundtrip_partial :
@@ -226,3 +227,77 @@ Theorem pickle_reassembly :
   forall ps lens, Forall pk_ok ps -> snd (pickle_run (ps, lens)) = ps.
 Proof. exact pickle_reassembly_l. Qed.
 Print Assumptions pickle_reassembly.
+
+(* ================================================================================================== *)
+(* TIME and CONNECTION LIFE CYCLE (Timed.v).  Chunks arrive at instants; a connection ends by EOF of the peer or by
+   MPF dropping the transport (read_message cancelled).  Full statement of this clause of C19: "the receiver
+   reassembles commands and attached binary payloads identically however - AND WHENEVER - the byte stream arrives". *)
+
+(* the delivered sequence (and the framing state) depends on the concatenated bytes only: not on the instants, not on
+   the cutting.  The model has no timer, so a reader that gives up / restarts after a pause cannot match it. *)
+Theorem reassembly_time_independent :
+  forall st (tcs tcs' : list tchunk),
+    concat (map snd tcs) = concat (map snd tcs') ->
+    fst (tfeed st tcs) = fst (tfeed st tcs') /\
+    map snd (snd (tfeed st tcs)) = map snd (snd (tfeed st tcs')).
+Proof. exact reassembly_time_independent_l. Qed.
+Print Assumptions reassembly_time_independent.
+
+Theorem timed_reassembly_untimed :
+  forall st (tcs : list tchunk),
+    fst (tfeed st tcs) = fst (rfeed st (concat (map snd tcs))) /\
+    map snd (snd (tfeed st tcs)) = snd (rfeed st (concat (map snd tcs))).
+Proof. exact timed_reassembly_untimed_l. Qed.
+Print Assumptions timed_reassembly_untimed.
+
+(* dispatch in the order sent, in time: non-decreasing arrival instants give non-decreasing delivery instants *)
+Theorem delivery_stamps_sorted :
+  forall st (tcs : list tchunk),
+    StronglySorted Z.le (map fst tcs) -> StronglySorted Z.le (map fst (snd (tfeed st tcs))).
+Proof. exact delivery_stamps_sorted_l. Qed.
+Print Assumptions delivery_stamps_sorted.
+
+(* complete frames followed by a torn one (part of a line, or a complete header with fewer payload bytes than
+   announced), in any pieces at any instants: exactly the complete frames come out, nothing of the torn one *)
+Theorem torn_frame_delivers_nothing :
+  forall ms t (tcs : list tchunk),
+    Forall wf_msg ms -> torn_ok t ->
+    concat (map snd tcs) = flat_map frame ms ++ torn_bytes t ->
+    map snd (snd (tfeed (RLine []) tcs)) = ms /\ fst (tfeed (RLine []) tcs) <> RBroken.
+Proof. exact torn_frame_delivers_nothing_l. Qed.
+Print Assumptions torn_frame_delivers_nothing.
+
+(* what the harness cuts off a wire frame (a strict prefix) is a torn frame in the sense of torn_frame_delivers_nothing *)
+Theorem strict_prefix_is_torn :
+  forall m p rest, wf_msg m -> frame m = p ++ rest -> rest <> [] -> exists t, torn_ok t /\ torn_bytes t = p.
+Proof. exact strict_prefix_is_torn_l. Qed.
+Print Assumptions strict_prefix_is_torn.
+
+(* one connection of the real machine (transport manager + interface): the callbacks of the registered commands get
+   exactly the completely sent messages, each with its own parameters and payload, whatever the instants, the cutting
+   and the torn tail.  _partial: guard sm_ok (no_marker_keys: recorded finding marker-in-line), as session_roundtrip_partial *)
+Theorem timed_connection_roundtrip_partial :
+  forall fo registered ms t (tcs : list tchunk),
+    Forall (sm_ok fo) ms -> Forall not_client_cmd ms -> torn_ok t ->
+    concat (map snd tcs) = flat_map wire ms ++ torn_bytes t ->
+    (map snd (fst (tconn_run fo registered tcs)), snd (tconn_run fo registered tcs)) =
+    (filter (fun x => mem_key (delivered_cmd x) registered) (map expected ms), false).
+Proof. exact timed_connection_roundtrip_l. Qed.
+Print Assumptions timed_connection_roundtrip_partial.
+
+(* every connection is served from the clean framing state: its result is a function of its own bytes *)
+Theorem new_connection_clean :
+  forall okf registered conns k c,
+    nth_error conns k = Some c ->
+    nth_error (srv_run (okf, registered, conns)) k =
+    Some (tconn_run (fun t => mem_key t okf) registered (conn_chunks c)).
+Proof. exact new_connection_clean_l. Qed.
+Print Assumptions new_connection_clean.
+
+(* the code WITHOUT fixes/C19-torn-frame-at-eof.patch: at EOF inside a line readline() returns the partial line,
+   message[0:-1] strips its last byte and the rest is dispatched as a command (x?a=int:12 -> x(a=1)) *)
+Theorem torn_line_unfixed_refuted :
+  exists ms l, Forall wf_msg ms /\ no10 l /\
+    let '(st, o) := rfeed (RLine []) (flat_map frame ms ++ l) in o ++ eof_unfixed st <> ms.
+Proof. exact torn_line_unfixed_refuted_l. Qed.
+Print Assumptions torn_line_unfixed_refuted.
